@@ -155,7 +155,7 @@ struct Item {
 
 /// heck's upper camel case for the identifiers the schema generator produces (lower-case words
 /// joined by `_`, optional trailing digit or underscore)
-fn upper_camel(s: &str) -> String {
+pub(crate) fn upper_camel(s: &str) -> String {
     // codegen/src/util.rs keeps leading and trailing underscores around the converted core
     let trimmed = s.trim_start_matches('_');
     let start = s.len() - trimmed.len();
@@ -280,6 +280,14 @@ fn write_corpus(dir: &Path, items: &[&Item]) -> std::io::Result<()> {
             let _ = writeln!(gmod, "    #[path = \"{}\"] pub mod s{};", dir.join(format!("src/gen_s{}.rs", i)).display(), i);
         }
         let _ = writeln!(mmod, "    ::aldrin::generate!(\"schemas/s{}.aldrin\", include = \"schemas\", introspection = true);", i);
+        for d in &it.schema.defs {
+            if let ADef::Service(sv) = d {
+                if it.gen_code.is_some() {
+                    let _ = writeln!(ids, "    println!(\"id {}/g/{} {{}}\", g::s{}::r#{}Proxy::introspection().type_id().0);", i, sv.name, i, sv.name);
+                }
+                let _ = writeln!(ids, "    println!(\"id {}/m/{} {{}}\", m::s{}::r#{}Proxy::introspection().type_id().0);", i, sv.name, i, sv.name);
+            }
+        }
         for d in &wire_types(it, None) {
             let n = d.name();
             if it.gen_code.is_some() {
@@ -655,6 +663,30 @@ impl C16 {
                 if let Some(mv) = ids.get(&mk) {
                     if mv != v {
                         out.violation("type-id-generator-vs-macro", format!("type {}: the code generator's output has type id {}, the generate! macro's {}", k, v, mv), json!({"seed": ctx.seed, "batch": batch, "type": k}));
+                    }
+                }
+            }
+        }
+        // compiled code and IR built by hand from the abstract schema agree
+        for &li in &live {
+            let it = &items[li];
+            let mut defs = wire_types(it, None);
+            defs.extend(it.schema.defs.iter().filter(|d| matches!(d, ADef::Service(_))).cloned());
+            for d in &defs {
+                let Some(expected) = super::c20::type_id_from_schema(&world, &it.schema.name, d) else {
+                    out.count("type_ids_closure_too_large_for_slots", 1);
+                    continue;
+                };
+                for path in ["g", "m"] {
+                    let k = format!("{}/{}/{}", it.idx, path, d.name());
+                    let Some(got) = ids.get(&k) else { continue };
+                    out.count(if matches!(d, ADef::Service(_)) { "service_ids_vs_hand_built_ir" } else { "type_ids_vs_hand_built_ir" }, 1);
+                    if *got != expected {
+                        out.violation(
+                            format!("type-id-compiled-vs-hand-built-ir:{}", match d { ADef::Struct(_) => "struct", ADef::Enum(_) => "enum", ADef::Newtype { .. } => "newtype", _ => "service" }),
+                            format!("{} {}: compiled code ({}) has type id {}, the IR built by hand from the same schema {}", match d { ADef::Service(_) => "service", _ => "type" }, k, if path == "g" { "code generator" } else { "generate! macro" }, got, expected),
+                            json!({"seed": ctx.seed, "batch": batch, "type": k, "schema": it.text}),
+                        );
                     }
                 }
             }
